@@ -109,7 +109,8 @@ func skipTag(data []byte, wireType csproto.WireType) (skip int, err error) {
 	default:
 		return 0, fmt.Errorf("unsupported wire type: %v", wireType)
 	}
-	if skip > len(data) {
+	if skip < 0 || skip > len(data) {
+		// negative: a length varint above the int range
 		return 0, io.ErrUnexpectedEOF
 	}
 	return skip, nil
